@@ -90,6 +90,7 @@ func extDummyType(fr *frame, a []value) value {
 	}
 	h.methods["String"] = func(fr *frame, args []value) value { return "dummyType" }
 	h.methods["Kind"] = func(fr *frame, args []value) value { return uint(0) }
+	h.methods["Comparable"] = func(fr *frame, args []value) value { return true }
 	return self
 }
 
